@@ -424,7 +424,9 @@ def step_data(spec):
     lin = Z @ beta + (0.5 * Z[:, 0] * Z[:, -1] if p > 1 and r.rand() < 0.5 else 0)
     if spec['family'] == 'gaussian':
         y = np.round(1 + lin + r.normal(size=n), 3)
-    elif spec['family'] == 'binomial':
+    elif spec['family'] == 'gaussian-log':
+        y = np.round(np.exp(0.4 * lin) + 0.3 + 0.25 * np.abs(r.normal(size=n)), 3)      # positive, log-linear mean
+    elif spec['family'] in ('binomial', 'binomial-probit'):
         y = r.binomial(1, 1 / (1 + np.exp(-lin)), n).astype(float)
         y[0], y[1] = 1.0, 0.0
     else:
@@ -436,6 +438,11 @@ def step_data(spec):
 
 def family_of(name):
     import statsmodels.api as sm
+    links = sm.families.links
+    if name == 'gaussian-log':         # "all statsmodels families are supported": a family carries its link
+        return sm.families.Gaussian(link=links.Log())
+    if name == 'binomial-probit':
+        return sm.families.Binomial(link=links.Probit())
     return {'gaussian': sm.families.Gaussian, 'binomial': sm.families.Binomial, 'poisson': sm.families.Poisson}[name]()
 
 
@@ -484,7 +491,7 @@ def gen_step_specs(ctx):
             p, order = rng.randint(1, 4), rng.randint(0, 2)
             if n_cols(p, order) <= cap:
                 break
-        specs.append({'n': rng.randint(30, 80), 'p': p, 'order': order, 'family': rng.choice(['gaussian', 'binomial', 'poisson']),
+        specs.append({'n': rng.randint(30, 80), 'p': p, 'order': order, 'family': rng.choice(['gaussian', 'binomial', 'poisson', 'gaussian-log', 'binomial-probit']),
                       'fwd': rng.random() < 0.5, 'design': rng.choice(['continuous', 'continuous', 'mixed']),
                       'dseed': rng.randint(0, 2 ** 31 - 1),
                       'xdtype': rng.choice(['float64', 'float64', 'float64', 'int8', 'uint8', 'int16'])})
